@@ -51,8 +51,10 @@ class Clock(i_lib.Clock):
         self._event.clear()
 
     def wait(self):
+        # With a time limit: after stop() the clock thread may exit without
+        # another tick, and a waiter that arrives just then would never wake.
         if self._keep_going:
-            self._event.wait()
+            self._event.wait(1.0)
         return self._keep_going
 
     def pause_for(self, delay):
